@@ -385,4 +385,48 @@ theorem proposeN_dedup_random_counters (env : Env) (seed : Nat) (sd : Bool) (hid
     | error e => simp only; rw [ih]
     | ok it => simp only; rw [ih]
 
+/-! ### Chunked recovery: `recover (h₁ ++ h₂) = recover h₂ after recover h₁` -/
+
+theorem baseRecover_append (env : Env) (a : Algo) (s : St) (h₁ h₂ : Hist) :
+    baseRecover env a s (h₁ ++ h₂) = match baseRecover env a s h₁ with
+      | .error e => .error e
+      | .ok s' => baseRecover env a s' h₂ := by
+  unfold baseRecover
+  rw [foldE_append]
+  cases foldE _ s h₁ <;> rfl
+
+theorem lastOr_append (l : Option Nat) (h₁ h₂ : Hist) : lastOr l (h₁ ++ h₂) = lastOr (lastOr l h₁) h₂ := by
+  induction h₁ generalizing l with
+  | nil => rfl
+  | cons x xs ih => exact ih _
+
+theorem keysOf_append (h₁ h₂ : Hist) : keysOf (h₁ ++ h₂) = keysOf h₁ ++ keysOf h₂ := by
+  simp [keysOf]
+
+theorem cacheOfKeys_append (c : Cache) (k₁ k₂ : List Nat) :
+    cacheOfKeys c (k₁ ++ k₂) = cacheOfKeys (cacheOfKeys c k₁) k₂ := by
+  simp [cacheOfKeys, List.foldl_append]
+
+theorem allKeyed_append {h₁ h₂ : Hist} (hk : AllKeyed (h₁ ++ h₂)) : AllKeyed h₁ ∧ AllKeyed h₂ :=
+  ⟨fun e he => hk e (List.mem_append.mpr (Or.inl he)), fun e he => hk e (List.mem_append.mpr (Or.inr he))⟩
+
+/-- `Deduping(Sweeping).recover` from any state, explicitly (repaired source). -/
+theorem recover_dedup_sweeping (env : Env) (hq : env.q.dedupForwardsReplay = false) (hid md ma : Nat) (au : Bool)
+    (np nf a b : Nat) (l : Option Nat) (c : Cache) (h : Hist) (hk : AllKeyed h) :
+    recover env (.deduping .sweeping hid md ma au) (.deduping np nf (.sweeping a b l) c) h
+      = .ok (.deduping (np + h.length) (nf + fedCount h)
+              (.sweeping (a + h.length) (b + fedCount h) (lastOr l h)) (cacheOfKeys c (keysOf h))) := by
+  simp only [recover, hq, Bool.false_eq_true, ↓reduceIte, baseRecover_sweeping]
+  rw [baseRecover_dedup_nofb env .sweeping hid md ma au hq rfl _ hk]
+
+/-- `Deduping(Random).recover` from any state, explicitly (repaired source). -/
+theorem recover_dedup_random (env : Env) (hq : env.q.dedupForwardsReplay = false) (seed : Nat) (sd : Bool)
+    (hid md ma : Nat) (au : Bool) (np nf a b pos : Nat) (c : Cache) (h : Hist) (hk : AllKeyed h) :
+    recover env (.deduping (.random seed sd) hid md ma au) (.deduping np nf (.random a b pos) c) h
+      = .ok (.deduping (np + h.length) (nf + fedCount h)
+              (.random (a + h.length) (b + fedCount h) (if sd then pos + h.length else pos))
+              (cacheOfKeys c (keysOf h))) := by
+  simp only [recover, hq, Bool.false_eq_true, ↓reduceIte, baseRecover_random]
+  rw [baseRecover_dedup_nofb env (.random seed sd) hid md ma au hq rfl _ hk]
+
 end Pg.C15
